@@ -184,6 +184,8 @@ def check_flag_persistence(model, rep, flag):
 
 
 def check(model, rep):
+    from checks.solver_common import absorb_cmp
+    absorb_cmp(model, rep, 'C13.dep.cmp', ('AngularSpeed', 'Torque'))
     rep.explain('C13 (structural clause only): the method deciding the solver\'s lock flag is found semantically (the writer '
                 'of the field that guards the clamp) and evaluated symbolically; lock and unlock decisions are compared with '
                 'the specification as exhaustive tables over the boolean atoms and the signs of pwm, motor speed and motor net '
